@@ -64,6 +64,136 @@ Proof.
     unfold cyc. rewrite Nat.mod_small by exact Hi. reflexivity.
 Qed.
 
+Lemma firstn_seq_min m a k : firstn m (seq a k) = seq a (Nat.min m k).
+Proof.
+  revert a k; induction m as [|m IH]; intros a k; [reflexivity|].
+  destruct k as [|k]; [reflexivity|]. cbn [seq firstn Nat.min]. f_equal. apply IH.
+Qed.
+
+Lemma cyc_prefix_S src a : cyc_prefix src (S a) = cyc_prefix src a ++ [cyc src a].
+Proof. unfold cyc_prefix. rewrite seq_S, map_app. reflexivity. Qed.
+
+(* ---------------------------------------------------------------------------------- *)
+(* the chosencases filter over the cyclic sequence *)
+
+Definition chosenb (ch : list nat) (e : entry) : bool := is_chosen (e_tag e) ch.
+
+Lemma cyc_add_len es i : cyc es (length es + i) = cyc es i.
+Proof.
+  unfold cyc. destruct (length es) as [|n'] eqn:E; [reflexivity|].
+  f_equal. rewrite Nat.add_comm. replace (i + S n') with (i + 1 * S n') by lia.
+  apply Nat.mod_add. lia.
+Qed.
+
+Lemma seq_add_map n a m : seq (n + a) m = map (fun i => n + i) (seq a m).
+Proof.
+  revert a; induction m as [|m IH]; intros a; [reflexivity|].
+  cbn [seq map]. f_equal. rewrite <- IH. f_equal. lia.
+Qed.
+
+Lemma cyc_prefix_add_len es m : cyc_prefix es (length es + m) = es ++ cyc_prefix es m.
+Proof.
+  unfold cyc_prefix. rewrite seq_app, map_app.
+  fold (cyc_prefix es (length es)). rewrite cyc_prefix_full. f_equal.
+  rewrite (Nat.add_comm 0 (length es)).
+  rewrite seq_add_map, map_map.
+  apply map_ext. intros i. apply cyc_add_len.
+Qed.
+
+Lemma cyc_prefix_small es r : r <= length es -> cyc_prefix es r = firstn r es.
+Proof.
+  intros Hr. rewrite <- (cyc_prefix_full es) at 2. unfold cyc_prefix.
+  rewrite firstn_map, firstn_seq_min, Nat.min_l by exact Hr. reflexivity.
+Qed.
+
+Lemma cyc_prefix_length es a : length (cyc_prefix es a) = a.
+Proof. unfold cyc_prefix. rewrite map_length, seq_length. reflexivity. Qed.
+
+Lemma filter_firstn_prefix {A} (f : A -> bool) (l : list A) r :
+  filter f (firstn r l) = firstn (length (filter f (firstn r l))) (filter f l).
+Proof.
+  rewrite <- (firstn_skipn r l) at 3. rewrite filter_app.
+  rewrite firstn_app, Nat.sub_diag, firstn_O, app_nil_r, firstn_all. reflexivity.
+Qed.
+
+Lemma filter_firstn_le {A} (f : A -> bool) (l : list A) r :
+  length (filter f (firstn r l)) <= length (filter f l).
+Proof.
+  rewrite <- (firstn_skipn r l) at 2. rewrite filter_app, app_length. lia.
+Qed.
+
+Section Filter.
+  Variable ch : list nat.
+  Variable es : list entry.
+  Let f := chosenb ch.
+  Let src := filter f es.
+  Let n := length es.
+  Let n' := length src.
+
+  Definition cnt (a : nat) : nat := length (filter (chosenb ch) (cyc_prefix es a)).
+
+  Lemma filter_cyc_prefix_qr q r :
+    r <= n ->
+    filter f (cyc_prefix es (q * n + r)) = cyc_prefix src (q * n' + length (filter f (firstn r es))).
+  Proof.
+    intros Hr. induction q as [|q IH].
+    - cbn [Nat.mul plus]. rewrite cyc_prefix_small by exact Hr.
+      rewrite cyc_prefix_small by apply filter_firstn_le.
+      apply filter_firstn_prefix.
+    - replace (S q * n + r) with (n + (q * n + r)) by lia.
+      replace (S q * n' + length (filter f (firstn r es)))
+        with (n' + (q * n' + length (filter f (firstn r es)))) by lia.
+      unfold n at 1. rewrite cyc_prefix_add_len, filter_app, IH.
+      unfold n' at 2. rewrite cyc_prefix_add_len. reflexivity.
+  Qed.
+
+  Hypothesis Hn : 0 < n.
+
+  Lemma filter_cyc_prefix a : filter f (cyc_prefix es a) = cyc_prefix src (cnt a).
+  Proof.
+    pose proof (Nat.div_mod a n ltac:(lia)) as E.
+    pose proof (Nat.mod_upper_bound a n ltac:(lia)) as Hr.
+    unfold cnt. fold f.
+    rewrite E at 1 2. rewrite (Nat.mul_comm n (a / n)).
+    rewrite filter_cyc_prefix_qr by lia. rewrite cyc_prefix_length. reflexivity.
+  Qed.
+
+  Lemma cnt_mul q : cnt (q * n) = q * n'.
+  Proof.
+    unfold cnt. fold f. replace (q * n) with (q * n + 0) by lia.
+    rewrite filter_cyc_prefix_qr by lia. rewrite cyc_prefix_length. cbn. lia.
+  Qed.
+
+  Lemma cnt_0 : cnt 0 = 0.
+  Proof. reflexivity. Qed.
+
+  Lemma cnt_S a : cnt (S a) = if f (cyc es a) then S (cnt a) else cnt a.
+  Proof.
+    unfold cnt. fold f. rewrite cyc_prefix_S, filter_app, app_length. cbn [filter].
+    destruct (f (cyc es a)); cbn [length]; lia.
+  Qed.
+
+  Lemma cnt_mono a b : a <= b -> cnt a <= cnt b.
+  Proof.
+    induction 1 as [|b Hle IH]; [lia|]. rewrite cnt_S. destruct (f (cyc es b)); lia.
+  Qed.
+
+  Lemma cnt_n : cnt n = n'.
+  Proof. replace n with (1 * n) by lia. rewrite cnt_mul. lia. Qed.
+
+  (* the a-th decoded entry, when chosen, is the (cnt a)-th entry of the cyclic replay of src *)
+  Lemma chosen_is_next a : f (cyc es a) = true -> cyc es a = cyc src (cnt a).
+  Proof.
+    intros Hc.
+    pose proof (filter_cyc_prefix (S a)) as E1. pose proof (filter_cyc_prefix a) as E0.
+    rewrite cnt_S, Hc in E1. rewrite cyc_prefix_S, filter_app in E1. cbn [filter] in E1.
+    rewrite Hc in E1. rewrite E0, cyc_prefix_S in E1.
+    apply app_inj_tail in E1. apply E1.
+  Qed.
+End Filter.
+
+Definition cfg0 (lim pas : nat) : cfg := {| limit := lim; passes := pas; chosen := [] |}.
+
 (* ---------------------------------------------------------------------------------- *)
 (* generic simulation *)
 
@@ -244,7 +374,10 @@ Record contract (dec : bool -> nat -> nat -> list entry -> dstate -> dres)
   k_err : forall cc a m d e,
       DI a m d -> dec cc lim pas es d = DErr e ->
       (cc = true /\ e = ECtx)
-      \/ (bound lim pas (length es) = Some a /\ ((e = EAmmoLimit /\ lim <> 0) \/ e = EPassLimit))
+      \/ (bound lim pas (length es) = Some a /\ ((e = EAmmoLimit /\ lim <> 0) \/ e = EPassLimit));
+  (* PassNum() >= 1 only after the whole file was decoded once, and always after n+1 entries *)
+  k_pass : forall a m d,
+      DI a m d -> (1 <= passNum d -> length es <= a) /\ (length es < a -> 1 <= passNum d)
 }.
 
 (* uri / raw / uripost: a = passNum*n + pos; passes checked right after the increment at EOF *)
@@ -323,6 +456,8 @@ Proof.
       - exact Hlim. }
     destruct (an =? 0) eqn:E3; [|discriminate].
     b2p; lia.
+  - intros a m d HI. dstate_cases d.
+    destruct HI as (Ha & Hp & Hq & _). fold n in Hp, Hq |- *. split; intros H; nia.
 Qed.
 
 Lemma raw_step_is_uri_step : raw_step = uri_step.
@@ -394,6 +529,8 @@ Proof.
       - exact Hlim. }
     destruct (an =? 0) eqn:E3; [|discriminate].
     b2p; lia.
+  - intros a m d HI. dstate_cases d.
+    destruct HI as (Ha & Hp & Hq & _). fold n in Hp, Hq |- *. split; intros H; nia.
 Qed.
 
 (* jsonline stream: the passes test comes at the top of the loop, so after the rewind the
@@ -466,89 +603,10 @@ Proof.
     apply nth_error_eof in En; [|exact Hp]. fold n in En. subst ps.
     destruct (an =? 0) eqn:E3; [|discriminate].
     b2p; lia.
+  - intros a m d HI. destruct d as [an pn ps il it]; unfold DI_j in *; cbn [ammoNum passNum pos inloop iter] in *.
+    destruct HI as (Ha & Hp & Hq & _). fold n in Hp, Hq |- *. split; intros H; nia.
 Qed.
 
-(* ---------------------------------------------------------------------------------- *)
-(* http provider, streaming (runFullScan), no chosencases filter *)
-
-Section HttpStream.
-  Variable k : dkind.
-  Variable es : list entry.
-  Variables lim pas cD : nat.
-  Variable DI : nat -> nat -> dstate -> Prop.
-  Hypothesis K : contract (dec_step k) es cD lim pas DI.
-
-  Let cf := {| limit := lim; passes := pas; chosen := [] |}.
-
-  Definition R_stream (a m : nat) (s : hstate) : Prop :=
-    exists d, s = HStream d /\ DI a m d.
-
-  Lemma stream_cont cc a m s s' :
-    R_stream a m s -> http_step k cf es cc s = Cont s' -> exists m', m' < m /\ R_stream a m' s'.
-  Proof.
-    intros (d & -> & HI) Hs. cbn [http_step] in Hs.
-    destruct (negb (inloop d) && cc); [discriminate|].
-    cbn [limit passes chosen cf] in Hs.
-    destruct (dec_step k cc lim pas es d) as [d'|e d'|e] eqn:Ed.
-    - injection Hs as <-. destruct (k_again _ _ _ _ _ _ K _ _ _ _ _ HI Ed) as (m' & Hm & HI').
-      exists m'. split; [exact Hm|]. exists d'. auto.
-    - cbn [is_chosen negb] in Hs. destruct cc; discriminate.
-    - discriminate.
-  Qed.
-
-  Lemma stream_emit a m s e s' :
-    R_stream a m s -> http_step k cf es false s = Emit e s' ->
-    below a (bound lim pas (length es)) /\ e = cyc es a /\ R_stream (S a) cD s'.
-  Proof.
-    intros (d & -> & HI) Hs. cbn [http_step] in Hs.
-    rewrite andb_false_r in Hs. cbn [limit passes chosen cf] in Hs.
-    destruct (dec_step k false lim pas es d) as [d'|e0 d'|e0] eqn:Ed; try discriminate.
-    cbn [is_chosen negb] in Hs. injection Hs as <- <-.
-    destruct (k_ammo _ _ _ _ _ _ K _ _ _ _ _ _ HI Ed) as (H1 & H2 & H3 & H4).
-    split; [exact H1|]. split; [exact H2|]. exists d'. auto.
-  Qed.
-
-  Lemma stream_stop a m s o cl :
-    R_stream a m s -> http_step k cf es false s = Stop o cl ->
-    bound lim pas (length es) = Some a /\ o = Ok /\ cl = true.
-  Proof.
-    intros (d & -> & HI) Hs. cbn [http_step] in Hs.
-    rewrite andb_false_r in Hs. cbn [limit passes chosen cf] in Hs.
-    destruct (dec_step k false lim pas es d) as [d'|e0 d'|e0] eqn:Ed;
-      [discriminate|cbn [is_chosen negb] in Hs; discriminate|].
-    injection Hs as <- <-.
-    destruct (k_err _ _ _ _ _ _ K _ _ _ _ _ HI Ed) as [(Hc & _)|(HB & He)]; [discriminate|].
-    split; [exact HB|]. split; [|reflexivity].
-    destruct He as [(-> & _)| ->]; reflexivity.
-  Qed.
-
-  Lemma stream_cemit a m s e s' :
-    R_stream a m s -> http_step k cf es true s = Emit e s' -> False.
-  Proof.
-    intros (d & -> & HI) Hs. cbn [http_step] in Hs.
-    destruct (negb (inloop d) && true); [discriminate|].
-    destruct (dec_step k true _ _ es d) as [d'|e0 d'|e0]; try discriminate.
-  Qed.
-
-  Lemma stream_cstop a m s o cl :
-    R_stream a m s -> http_step k cf es true s = Stop o cl -> clean_or_cancelled o /\ cl = true.
-  Proof.
-    intros (d & -> & HI) Hs. cbn [http_step] in Hs.
-    destruct (negb (inloop d) && true).
-    { injection Hs as <- <-. split; [right; left; reflexivity|reflexivity]. }
-    cbn [limit passes chosen cf] in Hs.
-    destruct (dec_step k true lim pas es d) as [d'|e0 d'|e0] eqn:Ed; [discriminate| |].
-    - cbn [is_chosen negb] in Hs. injection Hs as <- <-. split; [right; left; reflexivity|reflexivity].
-    - injection Hs as <- <-. split; [|reflexivity].
-      destruct (k_err _ _ _ _ _ _ K _ _ _ _ _ HI Ed) as [(_ & ->)|(_ & [(-> & _)| ->])].
-      + right; left; reflexivity.
-      + left; reflexivity.
-      + left; reflexivity.
-  Qed.
-
-  Lemma stream_init : R_stream 0 cD (http_init false).
-  Proof. exists dinit. split; [reflexivity|apply (k_init _ _ _ _ _ _ K)]. Qed.
-End HttpStream.
 
 (* ---------------------------------------------------------------------------------- *)
 (* What C08 says about one provider, as a predicate on its run function:
@@ -638,29 +696,6 @@ Proof.
     eapply Nat.le_trans; [apply (sim_steps step src B c None R H1 H2 H3 H4 H5 s0 m0 H0)|apply HC].
 Qed.
 
-Definition cfg0 (lim pas : nat) : cfg := {| limit := lim; passes := pas; chosen := [] |}.
-
-Lemma http_stream_c08_gen k es lim pas cD DI :
-  cD <= 1 ->
-  contract (dec_step k) es cD lim pas DI ->
-  c08_spec (http_run k false (cfg0 lim pas) es) es (bound lim pas (length es)) (length es) 2.
-Proof.
-  intros HcD K.
-  apply (sim_c08 (http_step k (cfg0 lim pas) es) es (bound lim pas (length es)) cD
-                 (R_stream DI) (http_init false) cD (length es) 2).
-  - intros cc a m s s'. eapply stream_cont; eauto.
-  - intros a m s e s'. eapply stream_emit; eauto.
-  - intros a m s o cl. eapply stream_stop; eauto.
-  - intros a m s e s'. eapply stream_cemit; eauto.
-  - intros a m s o cl. eapply stream_cstop; eauto.
-  - eapply stream_init; eauto.
-  - intros len. nia.
-Qed.
-
-Lemma http_stream_c08 k es lim pas DI :
-  contract (dec_step k) es 1 lim pas DI ->
-  c08_spec (http_run k false (cfg0 lim pas) es) es (bound lim pas (length es)) (length es) 2.
-Proof. apply http_stream_c08_gen. lia. Qed.
 
 (* ---------------------------------------------------------------------------------- *)
 (* DecodeProvider over MultiPassReader *)
@@ -686,6 +721,7 @@ Proof.
     destruct (nz lim && (lim <=? pa)) eqn:E1; [discriminate|].
     destruct (nth_error es ps) as [e|] eqn:En; [destruct cc; discriminate|].
     destruct (pas =? 1) eqn:E2; [discriminate|].
+    destruct (ps =? 0) eqn:E4; [discriminate|].
     destruct ((pas =? 0) || (S pp <? pas)) eqn:E3; [|discriminate].
     injection Hs as <-. cbn [p_ammo p_passes p_pos].
     apply nth_error_eof in En; [|exact Hp]. fold n in En. subst ps.
@@ -699,7 +735,8 @@ Proof.
     destruct HR as (Ha & Hp & Hq & Hpas & Hlim & Hm).
     destruct (nz lim && (lim <=? pa)) eqn:E1; [discriminate|].
     destruct (nth_error es ps) as [e0|] eqn:En.
-    2:{ destruct (pas =? 1); [discriminate|]. destruct ((pas =? 0) || (S pp <? pas)); discriminate. }
+    2:{ destruct (pas =? 1); [discriminate|]. destruct (ps =? 0); [discriminate|].
+        destruct ((pas =? 0) || (S pp <? pas)); discriminate. }
     injection Hs as <- <-. cbn [p_ammo p_passes p_pos].
     pose proof (nth_error_in _ _ _ En) as Hlt. fold n in Hlt.
     assert (Hal : lim <> 0 -> a < lim) by (intros Hl0; b2p; lia).
@@ -722,6 +759,7 @@ Proof.
     destruct (pas =? 1) eqn:E2.
     { injection Hs as <- <-. split; [|split; reflexivity]. b2p. subst pas.
       apply bound_some_passes; [lia| |exact Hlim]. specialize (Hpas ltac:(lia)). nia. }
+    destruct (n =? 0) eqn:E4; [b2p; lia|].
     destruct ((pas =? 0) || (S pp <? pas)) eqn:E3; [discriminate|].
     injection Hs as <- <-. split; [|split; reflexivity]. b2p.
     apply bound_some_passes; [lia| |exact Hlim]. specialize (Hpas ltac:(lia)).
@@ -731,13 +769,15 @@ Proof.
     unfold decode_step in Hs; cbn [p_ammo p_passes p_pos limit passes cfg0] in Hs.
     destruct (nz lim && (lim <=? pa)); [discriminate|].
     destruct (nth_error es ps); [discriminate|].
-    destruct (pas =? 1); [discriminate|]. destruct ((pas =? 0) || (S pp <? pas)); discriminate.
+    destruct (pas =? 1); [discriminate|]. destruct (ps =? 0); [discriminate|].
+    destruct ((pas =? 0) || (S pp <? pas)); discriminate.
   - (* Stop when cancelled: always nil, sink closed by the deferred close *)
     intros a m [pa pp ps] o cl HR Hs.
     unfold decode_step in Hs; cbn [p_ammo p_passes p_pos limit passes cfg0] in Hs.
     destruct (nz lim && (lim <=? pa)); [injection Hs as <- <-; split; [left|]; reflexivity|].
     destruct (nth_error es ps); [injection Hs as <- <-; split; [left|]; reflexivity|].
     destruct (pas =? 1); [injection Hs as <- <-; split; [left|]; reflexivity|].
+    destruct (ps =? 0); [injection Hs as <- <-; split; [left|]; reflexivity|].
     destruct ((pas =? 0) || (S pp <? pas)); [discriminate|].
     injection Hs as <- <-; split; [left|]; reflexivity.
   - unfold R_decode, pinit; cbn [p_ammo p_passes p_pos]. repeat split; try lia.
@@ -823,6 +863,11 @@ Proof.
       apply bound_some_passes; [lia| |exact Hlim]. specialize (Hpas ltac:(lia)). lia. }
     destruct (nth_error es (a mod n)) as [e0|] eqn:En; [discriminate|].
     exfalso. apply nth_error_None in En. pose proof (Nat.mod_upper_bound a n ltac:(lia)). fold n in En. lia.
+  - intros a m d HI. destruct d as [an pn ps il it].
+    unfold DI_a in *; cbn [ammoNum passNum pos inloop iter] in *.
+    destruct HI as (Ha & Hq & _). subst an pn. fold n. split; intros H.
+    + apply div_ge_iff in H; [lia|exact Hlen].
+    + apply div_ge_iff; [exact Hlen|lia].
 Qed.
 
 (* ---------------------------------------------------------------------------------- *)
@@ -913,12 +958,256 @@ Lemma filter_all_chosen (l : list entry) :
   filter (fun e => is_chosen (e_tag e) []) l = l.
 Proof. induction l as [|x r IH]; cbn; [reflexivity|]. f_equal. exact IH. Qed.
 
-Lemma cyc_prefix_S src a : cyc_prefix src (S a) = cyc_prefix src a ++ [cyc src a].
-Proof. unfold cyc_prefix. rewrite seq_S, map_app. reflexivity. Qed.
 
 Lemma match_nonempty {X A} (l : list X) (x y : A) :
   l <> [] -> match l with [] => x | _ :: _ => y end = y.
 Proof. destruct l; [congruence|reflexivity]. Qed.
+
+(* ---------------------------------------------------------------------------------- *)
+(* http provider, streaming (runFullScan) with the chosencases filter.
+   [dist a] bounds the number of further entries that are decoded before a chosen one comes
+   (0 everywhere when there is no filter). *)
+
+Lemma bound0_some pas n a : bound 0 pas n = Some a -> pas <> 0 /\ a = pas * n.
+Proof. unfold bound. destruct pas; [discriminate|]. intros H. injection H as <-. split; [discriminate|reflexivity]. Qed.
+
+Lemma below_bound0 pas n a : below a (bound 0 pas n) -> pas <> 0 -> S a <= pas * n.
+Proof. unfold below, bound. destruct pas; [congruence|]. lia. Qed.
+
+Section HttpStream.
+  Variable k : dkind.
+  Variable es : list entry.
+  Variables lim pas cD : nat.
+  Variable ch : list nat.
+  Variable DI : nat -> nat -> dstate -> Prop.
+  Hypothesis K : contract (dec_step k) es cD 0 pas DI.
+  Hypothesis Hn : es <> [].
+  Variable dist : nat -> nat.
+  Variable g : nat.
+  Hypothesis Hd1 : forall a, chosenb ch (cyc es a) = false -> dist (S a) < dist a.
+  Hypothesis Hd2 : forall a, dist a <= g.
+
+  Local Notation n := (length es).
+  Local Notation src := (filter (chosenb ch) es).
+  Local Notation n' := (length (filter (chosenb ch) es)).
+  Local Notation B := (bound lim pas (length (filter (chosenb ch) es))).
+  Local Notation cf := {| limit := lim; passes := pas; chosen := ch |}.
+  Local Notation cntf := (cnt ch es).
+
+  Hypothesis Hsrc : 0 < n'.
+
+  Lemma Hlen_stream : 0 < n.
+  Proof. destruct es; [congruence|cbn; lia]. Qed.
+
+  Definition R_stream (dl m : nat) (s : hstate) : Prop :=
+    exists d a md,
+      s = HStream d dl /\ DI a md d /\ dl = cntf a
+      /\ (pas <> 0 -> a <= pas * n)
+      /\ (lim <> 0 -> dl <= lim)
+      /\ (inloop d = true -> lim <> 0 -> dl < lim)
+      /\ dist a * (cD + 1) + md <= m.
+
+  (* the limit test at the top of runFullScan's loop *)
+  Lemma top_limit d dl :
+    (negb (inloop d) && nz lim && (lim <=? dl)) = false ->
+    (inloop d = true -> lim <> 0 -> dl < lim) -> lim <> 0 -> dl < lim.
+  Proof.
+    intros E Hin Hl0. destruct (inloop d) eqn:Ei; [apply Hin; auto|].
+    cbn [negb andb] in E. b2p. lia.
+  Qed.
+
+  Lemma cnt_le_passes a : pas <> 0 -> a <= pas * n -> cntf a <= pas * n'.
+  Proof.
+    intros Hp Ha. rewrite <- (cnt_mul ch es Hlen_stream pas).
+    apply cnt_mono; [exact Hlen_stream|exact Ha].
+  Qed.
+
+  (* the "matched nothing in a whole pass" test cannot fire when something matches *)
+  Lemma no_false_noammo a d' :
+    DI (S a) cD d' -> chosenb ch (cyc es a) = false ->
+    ((cntf a =? 0) && (1 <=? passNum d')) = false.
+  Proof.
+    intros HI Hc. destruct ((cntf a =? 0) && (1 <=? passNum d')) eqn:E; [|reflexivity]. exfalso.
+    b2p. destruct E as (E0 & E1).
+    destruct (k_pass _ _ _ _ _ _ K _ _ _ HI) as (P1 & _). specialize (P1 E1).
+    pose proof (cnt_mono ch es Hlen_stream n (S a) P1) as Hm. rewrite (cnt_n ch es Hlen_stream) in Hm.
+    rewrite (cnt_S ch es Hlen_stream) in Hm. fold (chosenb ch) in Hm. rewrite Hc in Hm. lia.
+  Qed.
+
+  Lemma pass_limit_delivered a :
+    bound 0 pas n = Some a -> pas <> 0 /\ a = pas * n /\ cntf a = pas * n' /\ 0 < cntf a.
+  Proof.
+    intros H. destruct (bound0_some _ _ _ H) as (Hp0 & ->).
+    split; [exact Hp0|]. split; [reflexivity|].
+    rewrite (cnt_mul ch es Hlen_stream). split; [reflexivity|].
+    assert (0 < pas) by lia. nia.
+  Qed.
+
+  Lemma stream_cont cc dl m s s' :
+    R_stream dl m s -> http_step k cf es cc s = Cont s' -> exists m', m' < m /\ R_stream dl m' s'.
+  Proof.
+    intros (d & a & md & -> & HI & Hdl & Hpa & Hlim & Hin & Hm) Hs. cbn [http_step] in Hs.
+    destruct (negb (inloop d) && cc); [discriminate|].
+    cbn [limit passes chosen] in Hs.
+    destruct (negb (inloop d) && nz lim && (lim <=? dl)) eqn:El; [discriminate|].
+    pose proof (top_limit d dl El Hin) as Hlt.
+    destruct (dec_step k cc 0 pas es d) as [d'|e d'|e] eqn:Ed.
+    - injection Hs as <-. destruct (k_again _ _ _ _ _ _ K _ _ _ _ _ HI Ed) as (md' & Hmd & HI').
+      exists (dist a * (cD + 1) + md'). split; [lia|].
+      exists d', a, md'. repeat split; auto.
+    - destruct (k_ammo _ _ _ _ _ _ K _ _ _ _ _ _ HI Ed) as (Hb & -> & HI' & Hil).
+      fold (chosenb ch (cyc es a)) in Hs.
+      destruct (chosenb ch (cyc es a)) eqn:Hc; cbn [negb] in Hs; [destruct cc; discriminate|].
+      subst dl. rewrite (no_false_noammo a d' HI' Hc) in Hs. injection Hs as <-.
+      pose proof (Hd1 a Hc) as Hdd.
+      exists (dist (S a) * (cD + 1) + cD). split; [nia|].
+      exists d', (S a), cD. repeat split; auto.
+      all: try (rewrite (cnt_S ch es Hlen_stream); fold (chosenb ch); rewrite Hc; reflexivity).
+      all: try (intros Hp0; apply (below_bound0 _ _ _ Hb Hp0)).
+      all: try (rewrite Hil; discriminate).
+    - discriminate.
+  Qed.
+
+  Lemma stream_emit dl m s e s' :
+    R_stream dl m s -> http_step k cf es false s = Emit e s' ->
+    below dl B /\ e = cyc src dl /\ R_stream (S dl) (g * (cD + 1) + cD) s'.
+  Proof.
+    intros (d & a & md & -> & HI & Hdl & Hpa & Hlim & Hin & Hm) Hs. cbn [http_step] in Hs.
+    rewrite andb_false_r in Hs. cbn [limit passes chosen] in Hs.
+    destruct (negb (inloop d) && nz lim && (lim <=? dl)) eqn:El; [discriminate|].
+    pose proof (top_limit d dl El Hin) as Hlt.
+    destruct (dec_step k false 0 pas es d) as [d'|e0 d'|e0] eqn:Ed; try discriminate.
+    destruct (k_ammo _ _ _ _ _ _ K _ _ _ _ _ _ HI Ed) as (Hb & -> & HI' & Hil).
+    fold (chosenb ch (cyc es a)) in Hs.
+    destruct (chosenb ch (cyc es a)) eqn:Hc; cbn [negb] in Hs.
+    2:{ destruct ((dl =? 0) && (1 <=? passNum d')); discriminate. }
+    injection Hs as <- <-.
+    assert (HS : cntf (S a) = S dl).
+    { rewrite (cnt_S ch es Hlen_stream). fold (chosenb ch). rewrite Hc. congruence. }
+    assert (Hpa' : pas <> 0 -> S a <= pas * n).
+    { intros Hp0. apply (below_bound0 _ _ _ Hb Hp0). }
+    split; [|split].
+    - apply below_bound; [exact Hlt|]. intros Hp0.
+      pose proof (cnt_le_passes (S a) Hp0 (Hpa' Hp0)). lia.
+    - subst dl. apply (chosen_is_next ch es Hlen_stream a Hc).
+    - exists d', (S a), cD. repeat split; auto.
+      all: try (intros Hl0; specialize (Hlt Hl0); lia).
+      all: try (rewrite Hil; discriminate).
+      all: try (pose proof (Hd2 (S a)); nia).
+  Qed.
+
+  Lemma stream_stop dl m s o cl :
+    R_stream dl m s -> http_step k cf es false s = Stop o cl -> B = Some dl /\ o = Ok /\ cl = true.
+  Proof.
+    intros (d & a & md & -> & HI & Hdl & Hpa & Hlim & Hin & Hm) Hs. cbn [http_step] in Hs.
+    rewrite andb_false_r in Hs. cbn [limit passes chosen] in Hs.
+    destruct (negb (inloop d) && nz lim && (lim <=? dl)) eqn:El.
+    { injection Hs as <- <-. split; [|split; reflexivity]. b2p.
+      destruct El as ((_ & Hl0) & Hge).
+      apply bound_some_limit; [lia|specialize (Hlim ltac:(lia)); lia|].
+      intros Hp0. subst dl. apply cnt_le_passes; auto. }
+    pose proof (top_limit d dl El Hin) as Hlt.
+    destruct (dec_step k false 0 pas es d) as [d'|e0 d'|e0] eqn:Ed; [discriminate| |].
+    - exfalso. destruct (k_ammo _ _ _ _ _ _ K _ _ _ _ _ _ HI Ed) as (Hb & -> & HI' & Hil).
+      fold (chosenb ch (cyc es a)) in Hs.
+      destruct (chosenb ch (cyc es a)) eqn:Hc; cbn [negb] in Hs; [discriminate|].
+      subst dl. rewrite (no_false_noammo a d' HI' Hc) in Hs. discriminate.
+    - injection Hs as <- <-.
+      destruct (k_err _ _ _ _ _ _ K _ _ _ _ _ HI Ed) as [(Hc & _)|(HB & He)]; [discriminate|].
+      destruct (pass_limit_delivered a HB) as (Hp0 & Ha & Hc & Hpos).
+      destruct He as [(_ & He)| ->]; [congruence|].
+      unfold fullscan_result. cbn [is_limit_err].
+      destruct (dl =? 0) eqn:E0; [b2p; lia|].
+      split; [|split; reflexivity].
+      apply bound_some_passes; [exact Hp0|congruence|exact Hlim].
+  Qed.
+
+  Lemma stream_cemit dl m s e s' :
+    R_stream dl m s -> http_step k cf es true s = Emit e s' -> False.
+  Proof.
+    intros (d & a & md & -> & _) Hs. cbn [http_step] in Hs.
+    destruct (negb (inloop d) && true); [discriminate|].
+    destruct (negb (inloop d) && _ && _); [discriminate|].
+    destruct (dec_step k true _ _ es d) as [d'|e0 d'|e0]; try discriminate.
+    destruct (negb _); [|discriminate]. destruct (_ && _); discriminate.
+  Qed.
+
+  Lemma stream_cstop dl m s o cl :
+    R_stream dl m s -> http_step k cf es true s = Stop o cl -> clean_or_cancelled o /\ cl = true.
+  Proof.
+    intros (d & a & md & -> & HI & Hdl & Hpa & Hlim & Hin & Hm) Hs. cbn [http_step] in Hs.
+    destruct (negb (inloop d) && true).
+    { injection Hs as <- <-. split; [right; left; reflexivity|reflexivity]. }
+    cbn [limit passes chosen] in Hs.
+    destruct (negb (inloop d) && nz lim && (lim <=? dl)).
+    { injection Hs as <- <-. split; [left; reflexivity|reflexivity]. }
+    destruct (dec_step k true 0 pas es d) as [d'|e0 d'|e0] eqn:Ed; [discriminate| |].
+    - destruct (k_ammo _ _ _ _ _ _ K _ _ _ _ _ _ HI Ed) as (Hb & -> & HI' & Hil).
+      fold (chosenb ch (cyc es a)) in Hs.
+      destruct (chosenb ch (cyc es a)) eqn:Hc; cbn [negb] in Hs.
+      + injection Hs as <- <-. split; [right; left; reflexivity|reflexivity].
+      + subst dl. rewrite (no_false_noammo a d' HI' Hc) in Hs. discriminate.
+    - injection Hs as <- <-. split; [|reflexivity].
+      destruct (k_err _ _ _ _ _ _ K _ _ _ _ _ HI Ed) as [(_ & ->)|(HB & He)].
+      + right; left; reflexivity.
+      + destruct (pass_limit_delivered a HB) as (Hp0 & Ha & Hc & Hpos).
+        destruct He as [(_ & He)| ->]; [congruence|].
+        unfold fullscan_result. cbn [is_limit_err].
+        destruct (dl =? 0) eqn:E0; [b2p; lia|]. left; reflexivity.
+  Qed.
+
+  Lemma stream_init : R_stream 0 (g * (cD + 1) + cD) (http_init false).
+  Proof.
+    exists dinit, 0, cD. split; [reflexivity|]. split; [apply (k_init _ _ _ _ _ _ K)|].
+    split; [reflexivity|]. repeat split; try lia.
+    all: try (intros _ Hl0; lia).
+    all: try (pose proof (Hd2 0); nia).
+  Qed.
+End HttpStream.
+
+(* streaming with a filter: c08_spec over the chosen entries, step constant depending on the gap *)
+Lemma http_stream_spec k es lim pas cD ch DI dist g C :
+  contract (dec_step k) es cD 0 pas DI -> es <> [] ->
+  (forall a, chosenb ch (cyc es a) = false -> dist (S a) < dist a) -> (forall a, dist a <= g) ->
+  0 < length (filter (chosenb ch) es) ->
+  (forall len, (g * (cD + 1) + cD + 1) + (g * (cD + 1) + cD + 1) * len <= C * (len + length es + 1)) ->
+  c08_spec (http_run k false {| limit := lim; passes := pas; chosen := ch |} es)
+           (filter (chosenb ch) es) (bound lim pas (length (filter (chosenb ch) es))) (length es) C.
+Proof.
+  intros K Hn Hd1 Hd2 Hsrc HC.
+  apply (sim_c08 (http_step k {| limit := lim; passes := pas; chosen := ch |} es)
+                 (filter (chosenb ch) es) (bound lim pas (length (filter (chosenb ch) es)))
+                 (g * (cD + 1) + cD)
+                 (R_stream es lim pas cD ch DI dist) (http_init false) (g * (cD + 1) + cD) (length es) C).
+  - intros cc a m s s'. eapply stream_cont; eauto.
+  - intros a m s e s'. eapply stream_emit; eauto.
+  - intros a m s o cl. eapply stream_stop; eauto.
+  - intros a m s e s'. eapply stream_cemit; eauto.
+  - intros a m s o cl. eapply stream_cstop; eauto.
+  - eapply stream_init; eauto.
+  - exact HC.
+Qed.
+
+Lemma chosenb_nil e : chosenb [] e = true.
+Proof. reflexivity. Qed.
+
+Lemma filter_chosenb_nil (l : list entry) : filter (chosenb []) l = l.
+Proof. induction l as [|x r IH]; cbn; [reflexivity|]. f_equal. exact IH. Qed.
+
+(* no filter: every entry is chosen, dist = 0 *)
+Lemma http_stream_c08_gen k es lim pas cD DI :
+  cD <= 1 -> es <> [] ->
+  contract (dec_step k) es cD 0 pas DI ->
+  c08_spec (http_run k false (cfg0 lim pas) es) es (bound lim pas (length es)) (length es) 2.
+Proof.
+  intros HcD Hn K.
+  pose proof (http_stream_spec k es lim pas cD [] DI (fun _ => 0) 0 2 K Hn) as H.
+  rewrite filter_chosenb_nil in H. apply H.
+  - intros a Hc. rewrite chosenb_nil in Hc. discriminate.
+  - intros a. lia.
+  - destruct es; [congruence|cbn; lia].
+  - intros len. nia.
+Qed.
 
 Lemma budget_again t md md' m : md' < md -> t + md + 2 <= m -> m - 1 < m /\ t + md' + 2 <= m - 1.
 Proof. lia. Qed.
@@ -1102,6 +1391,7 @@ Lemma g_after_cases n lim pas a m ga gp gs :
   end.
 Proof.
   intros Hn -> Hlim Hp1 Hpas Hle Hor Hm. unfold g_after. cbn [limit passes cfg0 g_ammo g_pass].
+  destruct (a =? 0) eqn:E0; [exfalso; b2p; destruct Hor as [Hor|Hor]; nia|].
   destruct (nz lim && (lim <=? a)) eqn:E1.
   { split; [reflexivity|]. split; [reflexivity|]. b2p.
     apply bound_some_limit; [lia|specialize (Hlim ltac:(lia)); lia|].
@@ -1143,7 +1433,8 @@ Proof.
         { exists 1. split; [lia|]. apply G; auto. }
         (* m < 2: the continuation of g_after is impossible here, the limit test stops *)
         exfalso. unfold g_after in Hs. cbn [limit passes cfg0 g_ammo g_pass] in Hs.
-        b2p. destruct (nz lim && (lim <=? ga)) eqn:E3; [discriminate|]. b2p. lia.
+        b2p. destruct (ga =? 0); [discriminate|].
+        destruct (nz lim && (lim <=? ga)) eqn:E3; [discriminate|]. b2p. lia.
       * apply nth_error_eof in En; [|exact Hps]. subst gs. rewrite Nat.eqb_refl in Hm.
         pose proof (g_after_cases (length es) lim pas a m ga gp (length es) Hlen Ha Hlim Hp1 Hpas) as G.
         rewrite Hs in G.
@@ -1164,11 +1455,13 @@ Proof.
     destruct gi; cbn [negb] in Hs; [|discriminate].
     destruct (Hin eq_refl) as (Hp1 & Hps & Hq & Hpas & Hm).
     destruct (nth_error es gs) as [e0|] eqn:En.
-    2:{ unfold g_after in Hs. destruct (nz _ && _); [discriminate|]. destruct (nz _ && _); discriminate. }
+    2:{ unfold g_after in Hs. destruct (g_ammo _ =? 0); [discriminate|].
+        destruct (nz _ && _); [discriminate|]. destruct (nz _ && _); discriminate. }
     pose proof (nth_error_in _ _ _ En) as Hlt.
     cbn [limit chosen cfg0 is_chosen negb] in Hs.
     destruct ((lim =? 0) || (ga <? lim)) eqn:E1.
-    2:{ unfold g_after in Hs. destruct (nz _ && _); [discriminate|]. destruct (nz _ && _); discriminate. }
+    2:{ unfold g_after in Hs. destruct (g_ammo _ =? 0); [discriminate|].
+        destruct (nz _ && _); [discriminate|]. destruct (nz _ && _); discriminate. }
     injection Hs as <- <-. subst ga.
     assert (Hal : lim <> 0 -> a < lim) by (intros Hl0; b2p; lia).
     split; [|split].
@@ -1192,6 +1485,7 @@ Proof.
       assert (Hle : a <= gp * length es) by nia.
       assert (Hor : a = gp * length es \/ (lim <> 0 /\ lim <= a)) by (right; b2p; lia).
       unfold g_after in Hs. cbn [limit passes cfg0 g_ammo g_pass] in Hs.
+      destruct (ga =? 0) eqn:E4; [exfalso; b2p; lia|].
       destruct (nz lim && (lim <=? ga)) eqn:E3.
       * injection Hs as <- <-. split; [|split; reflexivity]. b2p.
         apply bound_some_limit; [lia|specialize (Hlim ltac:(lia)); lia|].
@@ -1209,19 +1503,27 @@ Proof.
     destruct (nth_error es gs) as [e0|].
     + cbn [limit chosen cfg0 is_chosen negb] in Hs.
       destruct ((lim =? 0) || (ga <? lim)); [discriminate|].
-      unfold g_after in Hs. destruct (nz _ && _); [discriminate|]. destruct (nz _ && _); discriminate.
-    + unfold g_after in Hs. destruct (nz _ && _); [discriminate|]. destruct (nz _ && _); discriminate.
+      unfold g_after in Hs. destruct (g_ammo _ =? 0); [discriminate|].
+      destruct (nz _ && _); [discriminate|]. destruct (nz _ && _); discriminate.
+    + unfold g_after in Hs. destruct (g_ammo _ =? 0); [discriminate|].
+      destruct (nz _ && _); [discriminate|]. destruct (nz _ && _); discriminate.
   - (* Stop when cancelled *)
     intros a m [ga gp gs gi] o cl HR Hs.
+    unfold R_g in HR; cbn [g_ammo g_pass g_pos g_inner] in HR.
+    destruct HR as (Ha & Hlim & Hout & Hin).
     unfold grpcjson_step in Hs; cbn [g_ammo g_pass g_pos g_inner] in Hs.
     destruct gi; cbn [negb] in Hs; [|discriminate].
-    destruct (nth_error es gs) as [e0|].
+    destruct (Hin eq_refl) as (Hp1 & Hps & Hq & Hpas & Hm).
+    destruct (nth_error es gs) as [e0|] eqn:En.
     + cbn [limit chosen cfg0 is_chosen negb] in Hs.
-      destruct ((lim =? 0) || (ga <? lim)); [injection Hs as <- <-; split; [left|]; reflexivity|].
-      unfold g_after in Hs.
+      destruct ((lim =? 0) || (ga <? lim)) eqn:E1; [injection Hs as <- <-; split; [left|]; reflexivity|].
+      unfold g_after in Hs. cbn [limit passes cfg0 g_ammo g_pass] in Hs.
+      destruct (ga =? 0) eqn:E4; [exfalso; b2p; lia|].
       destruct (nz _ && _); [injection Hs as <- <-; split; [left|]; reflexivity|].
       destruct (nz _ && _); [injection Hs as <- <-; split; [left|]; reflexivity|discriminate].
-    + unfold g_after in Hs.
+    + apply nth_error_eof in En; [|exact Hps]. subst gs.
+      unfold g_after in Hs. cbn [limit passes cfg0 g_ammo g_pass] in Hs.
+      destruct (ga =? 0) eqn:E4; [exfalso; b2p; nia|].
       destruct (nz _ && _); [injection Hs as <- <-; split; [left|]; reflexivity|].
       destruct (nz _ && _); [injection Hs as <- <-; split; [left|]; reflexivity|discriminate].
   - unfold R_g, ginit; cbn [g_ammo g_pass g_pos g_inner].
@@ -1247,11 +1549,11 @@ Proof.
       * exact (http_preload_c08 DJsonArr es lim pas 0 _ (le_S 0 0 (le_n 0)) Hn (jsonarr_contract es 0 1 Hn)).
     + apply (c08_spec_mono _ _ _ _ 2 4); [lia|].
       destruct d.
-      * exact (http_stream_c08 DUri es lim pas _ (uri_contract es lim pas Hn)).
-      * exact (http_stream_c08 DUripost es lim pas _ (uripost_contract es lim pas Hn)).
-      * exact (http_stream_c08 DRaw es lim pas _ (raw_contract es lim pas Hn)).
-      * exact (http_stream_c08 DJsonl es lim pas _ (jsonl_contract es lim pas Hn)).
-      * exact (http_stream_c08_gen DJsonArr es lim pas 0 _ (le_S 0 0 (le_n 0)) (jsonarr_contract es lim pas Hn)).
+      * exact (http_stream_c08_gen DUri es lim pas 1 _ (le_n 1) Hn (uri_contract es 0 pas Hn)).
+      * exact (http_stream_c08_gen DUripost es lim pas 1 _ (le_n 1) Hn (uripost_contract es 0 pas Hn)).
+      * exact (http_stream_c08_gen DRaw es lim pas 1 _ (le_n 1) Hn (raw_contract es 0 pas Hn)).
+      * exact (http_stream_c08_gen DJsonl es lim pas 1 _ (le_n 1) Hn (jsonl_contract es 0 pas Hn)).
+      * exact (http_stream_c08_gen DJsonArr es lim pas 0 _ (le_S 0 0 (le_n 0)) Hn (jsonarr_contract es 0 pas Hn)).
   - apply (c08_spec_mono _ _ _ _ 1 4); [lia|]. exact (scen_c08 es lim pas Hn).
   - apply (c08_spec_mono _ _ _ _ 3 4); [lia|]. exact (grpcjson_c08 es lim pas Hn).
   - apply (c08_spec_mono _ _ _ _ 2 4); [lia|]. exact (decode_c08 es lim pas Hn).
@@ -1262,11 +1564,6 @@ Qed.
 
 Definition step_const : nat := 4.
 
-Lemma firstn_seq_min m a k : firstn m (seq a k) = seq a (Nat.min m k).
-Proof.
-  revert a k; induction m as [|m IH]; intros a k; [reflexivity|].
-  destruct k as [|k]; [reflexivity|]. cbn [seq firstn Nat.min]. f_equal. apply IH.
-Qed.
 
 Lemma c08_count (k : pkind) es lim pas :
   es <> [] ->
